@@ -95,6 +95,7 @@ type FuncCtx struct {
 	loopDepth int
 	permitBareRange bool
 	ceUnroll  int
+	inputArrs []string
 }
 
 type deferred struct {
@@ -230,7 +231,28 @@ func (st *State) heapGet(name, sort string) string {
 	st.fc.declare(c, sort)
 	st.fc.heapSorts[name] = sort
 	st.heap[name] = c
+	st.heapTyping(name, c)
 	return c
+}
+
+var basicIntRanges = map[string][2]string{
+	"uint8": {"0", "255"}, "uint16": {"0", "65535"}, "uint32": {"0", "4294967295"}, "uint64": {"0", "18446744073709551615"}, "uint": {"0", "18446744073709551615"},
+	"int8": {"(- 128)", "127"}, "int16": {"(- 32768)", "32767"}, "int32": {"(- 2147483648)", "2147483647"}, "int64": {"(- 9223372036854775808)", "9223372036854775807"}, "int": {"(- 9223372036854775808)", "9223372036854775807"},
+	"uintptr": {"0", "18446744073709551615"},
+}
+
+// heapTyping: every cell of an integer element heap holds a value of its Go type (needed inside quantified specs,
+// where reads are not individually typed).
+func (st *State) heapTyping(name, h string) {
+	if !strings.HasPrefix(name, "E!") || !strings.HasSuffix(name, "!") {
+		return
+	}
+	key := strings.TrimSuffix(strings.TrimPrefix(name, "E!"), "!")
+	r, ok := basicIntRanges[key]
+	if !ok {
+		return
+	}
+	st.facts = st.facts.push(fmt.Sprintf("(forall ((g_a Int) (g_i Int)) (! (and (<= %s (select (select %s g_a) g_i)) (<= (select (select %s g_a) g_i) %s)) :pattern ((select (select %s g_a) g_i))))", r[0], h, h, r[1], h))
 }
 
 func (st *State) noteWrite(name, idTerm string) {
@@ -255,6 +277,7 @@ func (st *State) heapHavoc(name, sort string) string {
 	c := st.fc.fresh("H_"+name, sort)
 	st.fc.heapSorts[name] = sort
 	st.heap[name] = c
+	st.heapTyping(name, c)
 	return c
 }
 
@@ -279,7 +302,7 @@ func (st *State) typeFacts(v Val) []string {
 	case KSlice:
 		out = append(out, wfSlice(v, st.alloc)...)
 	case KString:
-		out = append(out, sCmp("<=", "0", v.length()), sCmp("<", v.length(), sNum(pow2(maxLenBits))))
+		out = append(out, sCmp("<=", "0", v.length()), sCmp("<", v.length(), sNum(pow2(maxLenBits))), sCmp("<=", "0", v.soff()), sCmp("<", v.soff(), sNum(pow2(maxLenBits))))
 	case KStruct, KTuple:
 		for _, s := range v.Sub {
 			out = append(out, st.typeFacts(s)...)
@@ -313,6 +336,11 @@ func (st *State) freshVal(prefix string, t types.Type) Val {
 	comps := flatComps(t)
 	terms := make([]string, len(comps))
 	for i, c := range comps {
+		if c.Leaf == "soff" {
+			// a fresh symbolic string (content, off, len) is w.l.o.g. normalised to offset 0
+			terms[i] = "0"
+			continue
+		}
 		terms[i] = st.fc.fresh(prefix+c.Path, c.Sort)
 	}
 	v := unflatten(t, terms)
@@ -332,7 +360,7 @@ func (st *State) zeroVal(t types.Type) Val {
 	case tcBool:
 		return Val{K: KBool, S: "false", T: t}
 	case tcString, tcTParamSeq:
-		return mkString(t, "((as const (Array Int Int)) 0)", "0")
+		return mkString(t, "((as const (Array Int Int)) 0)", "0", "0")
 	case tcSlice:
 		return mkSlice(t, "0", "0", "0", "0")
 	case tcStruct:
